@@ -15,6 +15,7 @@ import (
 	"bytes"
 	"crypto/aes"
 	"crypto/cipher"
+	crand "crypto/rand"
 	"fmt"
 	"io"
 	"log"
@@ -32,6 +33,8 @@ type vwTap struct {
 	pk   chan *Packet
 	st   chan net.Conn
 }
+
+func newDiscardLogger() *log.Logger { return log.New(io.Discard, "", 0) }
 
 func newVwTap() *vwTap { return &vwTap{pk: make(chan *Packet), st: make(chan net.Conn)} }
 func (t *vwTap) FinalAdvertiseAddr(string, int) (net.IP, int, error) {
@@ -93,6 +96,7 @@ func (d *vwUser) LocalState(bool) []byte        { return nil }
 func (d *vwUser) MergeRemoteState([]byte, bool) {}
 
 type vwNodeCfg struct {
+	lateKeys bool // start with an empty keyring and install the keys after the node exists
 	name     string
 	label    string
 	skip     bool
@@ -112,16 +116,23 @@ func vwNode(c vwNodeCfg) (*Memberlist, *vwTap, *vwUser) {
 	conf.Logger = log.New(io.Discard, "", 0)
 	conf.Label = c.label
 	conf.SkipInboundLabelCheck = c.skip
+	var lateKeys [][]byte
 	if len(c.keys) > 0 {
 		var ks [][]byte
 		for _, id := range c.keys {
 			ks = append(ks, vwKeys[id])
 		}
-		kr, err := NewKeyring(ks, ks[0])
-		if err != nil {
-			panic(err)
+		if c.lateKeys {
+			kr, _ := NewKeyring(nil, nil)
+			conf.Keyring = kr
+			lateKeys = ks
+		} else {
+			kr, err := NewKeyring(ks, ks[0])
+			if err != nil {
+				panic(err)
+			}
+			conf.Keyring = kr
 		}
-		conf.Keyring = kr
 	}
 	conf.GossipVerifyOutgoing = c.vout
 	conf.GossipVerifyIncoming = c.vin
@@ -137,6 +148,11 @@ func vwNode(c vwNodeCfg) (*Memberlist, *vwTap, *vwUser) {
 	m, err := newMemberlist(conf)
 	if err != nil {
 		panic(err)
+	}
+	for _, k := range lateKeys {
+		if err := m.config.Keyring.AddKey(k); err != nil {
+			panic(err)
+		}
 	}
 	m.Shutdown() // stop the background goroutines: the node is used as a host for direct calls
 	synctest.Wait() // ... and make sure they are gone before anything is fed to the node
@@ -420,7 +436,7 @@ func vwGenuine(r *vfRng, forceEnc bool) *vwSent {
 		keys = []int{2, 4}
 	}
 	pv := uint8(r.pick([]int{1, 2, 5}))
-	s := vwNodeCfg{name: "snd", label: label, keys: keys, vout: true, vin: true, pv: pv, compress: r.chance(50)}
+	s := vwNodeCfg{name: "snd", label: label, keys: keys, vout: true, vin: true, pv: pv, compress: r.chance(50), lateKeys: r.chance(25)}
 	if !forceEnc && r.chance(10) {
 		s.vout = false
 	}
@@ -481,6 +497,40 @@ func vwGenuine(r *vfRng, forceEnc bool) *vwSent {
 	vwCollectDecomp(inner, 6, &out.oracles)
 	vwCollectDecomp(msg, 6, &out.oracles)
 	return out
+}
+
+type vwFailReader struct{}
+
+func (vwFailReader) Read([]byte) (int, error) { return 0, fmt.Errorf("entropy source unavailable") }
+
+// kind 5: the nonce source fails while encryption is enforced: nothing may leave in clear
+func vwCryptoFailure(r *vfRng, st *vfStats) vfCase {
+	label := vwLabels[r.pick([]int{0, 2})]
+	s := vwNodeCfg{name: "snd", label: label, keys: []int{1 + r.n(3)}, vout: true, vin: true, pv: uint8(r.pick([]int{1, 2, 5})), compress: r.chance(50)}
+	sm, stap, _ := vwNode(s)
+	msg, _ := vwMsg(r)
+	stap.take()
+	saved := crand.Reader
+	crand.Reader = vwFailReader{}
+	sendErr := sm.rawSendMsgPacket(Address{Addr: "10.0.0.1:7946", Name: "x"}, nil, msg)
+	crand.Reader = saved
+	bufs, _ := stap.take()
+	c := vfCase{Cfg: vwCfg(5, 1400, s, s, 0, 0)}
+	var wire []byte
+	sealed, leak := true, false
+	if len(bufs) > 0 {
+		wire = bufs[0]
+		body, lab := vwStripLabel(wire)
+		_, _, ok := vwAeadEntry(s.keys[0], body, lab)
+		sealed = ok
+		leak = vwLeak(wire, msg)
+	}
+	c.Ops = [][]int64{vwB(msg), vwB(wire), nil}
+	c.Obs = [][]int64{{0, int64(len(bufs)), vwBool(sealed), vwBool(leak)}}
+	st.Ops++
+	st.OpHist["crypto_failure"]++
+	st.class(fmt.Sprintf("5|%d|%v|%v", len(bufs), sendErr != nil, sealed))
+	return c
 }
 
 func vwLeak(wire, msg []byte) bool {
@@ -616,11 +666,17 @@ func vwTamper(r *vfRng, st *vfStats) []vfCase {
 		rc20.label = other
 		add(20, rc20, g.wire, nil)
 		// and with the inbound check delegated: a labelled packet must be refused, an unlabelled one accepted only under the receiver's label as AAD
+		// delegated check: a label header is then unexpected, and the receiver's own label is the
+		// associated data, so traffic of another label still fails authentication
 		rc21 := rc20
 		rc21.skip = true
-		if g.s.label != "" {
-			add(20, rc21, g.wire, nil)
-		}
+		add(20, rc21, g.wire, nil)
+	}
+	if g.s.label != "" {
+		// same label, check delegated: the outer layer should have stripped the header already
+		rc22 := rc
+		rc22.skip = true
+		add(20, rc22, g.wire, nil)
 	}
 	return out
 }
@@ -858,6 +914,9 @@ func TestVfWire(t *testing.T) {
 			}
 			if i%2 == 0 {
 				cases = append(cases, vwBudget(r, st))
+			}
+			if i%5 == 2 {
+				cases = append(cases, vwCryptoFailure(r, st))
 			}
 			time.Sleep(3 * time.Hour)
 		})
